@@ -22,8 +22,13 @@ type oracleInfo struct {
 	viol     *proto.Record
 }
 
+var degradedMode bool
+
 func oracleRun(bin string, wall time.Duration, corpusPath string, order string, ids []int) proto.OracleOut {
 	args := []string{"oracle", "-corpus", corpusPath, "-order", order, "-seed", strconv.FormatUint(seed, 10)}
+	if degradedMode {
+		args = append(args, "-free")
+	}
 	if ids != nil {
 		s := make([]string, len(ids))
 		for i, id := range ids {
@@ -394,6 +399,7 @@ func distinct(s []uint64) int {
 
 func doCheck(b builds, cfg tierCfg) int {
 	degraded := len(b.rep.Unmodelled) > 0
+	degradedMode = degraded
 	if degraded {
 		logf("the tree contains %d construct(s) the simulator has no model for -> DEGRADED mode (free-running goroutines under -race)", len(b.rep.Unmodelled))
 	}
